@@ -3,44 +3,145 @@ import GuppyVerif.Lemmas.C06Crash
 
 Property theorems only.  `checkCfg` (Model/Linearity.lean) is the model of
 `check_cfg_linearity` with its two passes; `Good` (Spec/C06.lean) is the ownership semantics
-over CFG paths.  All statements are for **every** program of the flat core fragment: any CFG
-(`Prog.WF`: the shape of the CFGs the checker receives), any statements, any decomposition of
-places into leaves (so struct fields and tuple elements, nested arbitrarily, are covered — the
-variable-only stage is the special case where every place is its own single leaf), no size bound.
-The place-level liveness inside `checkCfg` is the C09 worklist; its result is characterised by
-the C09 theorem `liveRun_correct`, for any scheduler. -/
+over CFG paths.  All statements are for **every** program of the core fragment: any CFG
+(`Prog.WF`), statements given as the visitor's sequence of place-level actions (so nested call
+expressions with their order of consumption are covered), any decomposition of places into
+leaves (struct fields, tuple elements, nested), and **kinds that belong to bindings, not to
+names**: a variable may be re-bound at a type of the other kind (`Prog.KindsOK` = the CFG is
+well-kinded, what the type checker establishes).  No size bound.  The place-level liveness
+inside `checkCfg` is the C09 worklist, characterised by `liveRun_correct` for any scheduler. -/
 namespace GuppyVerif.Linearity
 
-/-- **Soundness.**  If the checker accepts, then on every path from the entry (finite or not)
-    every linear leaf is used only while owned and never overwritten while owned, the borrowed
-    leaves — and nothing else — are owned when the exit is reached, an owned leaf always has a
-    continuation that reads it (no leak, also in loops that never terminate; a borrowed leaf may
-    idle on a path that never returns), and no whole borrowed variable is moved, consumed,
-    returned or reassigned, nor a linear result discarded, in reachable code. -/
-theorem lin_sound (P : Prog) (hw : P.WF) (h : checkCfg P = .ok ()) : Good P := by
-  obtain ⟨C⟩ := cert_of_accept hw.closed h
-  refine ⟨fun l hl => leafGood hw C.toPreCert hl C.edges, ?_⟩
-  rintro b ⟨bs, hwk⟩
-  exact static_ok C.toPreCert (walk_blocks hw hwk)
+theorem blockEvs_nil_of_not_mem {P : Prog} {l : Leaf} (hl : l ∉ P.leafIds) {b : Blk} (hb : b ∈ P.blocks) :
+    P.blockEvs l b = [] := by
+  unfold Prog.leafIds at hl
+  simp only [List.mem_append, List.mem_flatMap, not_or, not_exists, not_and] at hl
+  obtain ⟨hbl, hrest⟩ := hl
+  unfold Prog.blockEvs
+  have h1 : (P.stmts b).flatMap (Stmt.evs l) = [] := by
+    rw [List.flatMap_eq_nil_iff]
+    intro st hst
+    have hst' := (hrest b hb).2 st hst
+    unfold Stmt.evs
+    rw [List.append_eq_nil_iff, List.flatMap_eq_nil_iff, List.flatMap_eq_nil_iff]
+    constructor
+    · intro a ha
+      have := hst'.1 a ha
+      cases a with
+      | use p borrow =>
+        simp only [Act.evs, leafEvs_eq_nil]
+        intro xk hxk e
+        exact this (List.mem_map.mpr ⟨xk, hxk, e⟩)
+      | give p =>
+        simp only [Act.evs, leafEvs_eq_nil]
+        intro xk hxk e
+        exact this (List.mem_map.mpr ⟨xk, hxk, e⟩)
+      | dropAfter => rfl
+    · intro t ht
+      rw [leafEvs_eq_nil]
+      intro xk hxk e
+      exact hst'.2 t ht (List.mem_map.mpr ⟨xk, hxk, e⟩)
+  rw [h1]
+  simp [hbl]
 
-/-- The same, in terms of what the line-protocol driver evaluates on every extracted CFG:
-    the executable shape check `wfb` and the executable verdict `accepts`. -/
-theorem lin_sound_exec (P : Prog) (hw : P.wfb = true) (h : accepts P = true) : Good P :=
-  lin_sound P (wf_of_wfb hw) (accepts_iff.mp h)
+theorem kindsOK_of_b {P : Prog} (hw : P.WF) (h : P.kindsOKb = true) : P.KindsOK := by
+  unfold Prog.kindsOKb at h
+  simp only [Bool.and_eq_true, List.all_eq_true, List.contains_iff_mem] at h
+  obtain ⟨h1, h2⟩ := h
+  refine ⟨fun b hb l hl => h1 b hb l hl, ?_⟩
+  intro l b hb
+  by_cases hl : l ∈ P.leafIds
+  · have := h2 l hl b hb
+    cases hk : krun (P.rowKind b l) (P.blockEvs l b) with
+    | none => simp [hk] at this
+    | some k =>
+      simp only [hk, List.all_eq_true] at this
+      refine ⟨k, rfl, ?_⟩
+      intro c hc hrow
+      have := this c hc
+      simpa [hrow] using this
+  · refine ⟨P.rowKind b l, by rw [blockEvs_nil_of_not_mem hl hb]; rfl, ?_⟩
+    intro c hc hrow
+    exfalso
+    apply hl
+    unfold Prog.leafIds
+    simp only [List.mem_append, List.mem_flatMap]
+    exact Or.inr ⟨c, hw.closed b hb c hc, Or.inl hrow⟩
+
+/-- **Soundness.**  If the checker accepts a well-kinded CFG, then on every path from the entry
+    (finite or not), for every leaf: a linear binding is used only while its value is held, no
+    binding — of whatever kind — is assigned while a linear value is held under the leaf, the
+    borrowed leaves and nothing else are held when the exit is reached, a held value always has
+    a continuation that reads it (no leak, also in loops that never terminate; a borrowed leaf
+    may idle on a path that never returns); and no whole borrowed variable is moved, consumed,
+    returned or reassigned, no linear result discarded, no unnamed linear value lent, in
+    reachable code. -/
+theorem lin_sound (P : Prog) (hw : P.WF) (hk : P.KindsOK) (h : checkCfg P = .ok ()) : Good P := by
+  obtain ⟨C⟩ := cert_of_accept hw.closed h
+  refine ⟨fun l => leafGood hw hk C.toPreCert C.edges, ?_⟩
+  rintro b ⟨bs, hwk⟩
+  exact static_ok hw C.toPreCert (walk_blocks hw hwk)
+
+/-- The same in terms of what the line-protocol driver evaluates on every extracted CFG. -/
+theorem lin_sound_exec (P : Prog) (hw : P.wfb = true) (hk : P.kindsOKb = true) (h : accepts P = true) :
+    Good P :=
+  lin_sound P (wf_of_wfb hw) (kindsOK_of_b (wf_of_wfb hw) hk) (accepts_iff.mp h)
 
 /-- every place of the program is a variable that is its own single leaf (no tuple / struct
     typed variables, no field access): the first stage of the design -/
-def Place.IsVar (p : Place) : Prop := p.isLeaf = true ∧ ∃ x, p.leaves = [x] ∧ p.var = some x
+def Place.IsVar (p : Place) : Prop := p.isLeaf = true ∧ ∃ x k, p.leaves = [(x, k)] ∧ p.var = some x
 
-def Stmt.VarsOnly : Stmt → Prop
-  | .move tgts srcs => (∀ p ∈ tgts, p.IsVar) ∧ ∀ p ∈ srcs, p.IsVar
-  | .call tgts args _ => (∀ p ∈ tgts, p.IsVar) ∧ ∀ a ∈ args, a.place.IsVar
-  | .ret srcs => ∀ p ∈ srcs, p.IsVar
+def Act.VarsOnly : Act → Prop
+  | .use p _ => p.IsVar
+  | .give p => p.IsVar
+  | .dropAfter => True
+
+def Stmt.VarsOnly (st : Stmt) : Prop := (∀ a ∈ st.acts, a.VarsOnly) ∧ ∀ p ∈ st.tgts, p.IsVar
 
 /-- Soundness for the variable-only fragment (a special case of `lin_sound`). -/
-theorem lin_sound_vars (P : Prog) (hw : P.WF) (_hv : ∀ b, ∀ st ∈ P.stmts b, st.VarsOnly)
+theorem lin_sound_vars (P : Prog) (hw : P.WF) (hk : P.KindsOK) (_hv : ∀ b, ∀ st ∈ P.stmts b, st.VarsOnly)
     (h : checkCfg P = .ok ()) : Good P :=
-  lin_sound P hw h
+  lin_sound P hw hk h
+
+/-- **The place-level liveness inside the checker terminates**, for every program, every scope
+    table and every visiting order, within the fuel the model grants (an instance of the C09
+    theorem `liveRun_terminates`). -/
+theorem live_terminates (P : Prog) (hw : P.WF) (sc : Blk → Scope) (init : List Leaf) (sched : List Blk → Blk) :
+    (Dataflow.liveRun (flowCfg P sc) sched (liveFuel (flowCfg P sc) init)
+      (Dataflow.liveInit (flowCfg P sc) init)).isSome = true :=
+  liveRun_flow_isSome P hw.closed sc init sched
+
+/-! ## Completeness
+
+Full statement (kept for reference; it is **false of the code**, see `lin_complete_false_G1/G2`):
+`P.WF → P.KindsOK → (every block but the exit is reachable) → Good P → checkCfg P = .ok ()`. -/
+
+/-- **Completeness (partial: `NoGap`).**  Every path good, ownership rules respected, CFG
+    well-kinded, outside the two known gaps of the code ⇒ the checker accepts: no
+    `AlreadyUsedError`, `PlaceNotUsedError`, `NotOwnedError`, `BorrowShadowedError`,
+    `BorrowSubPlaceUsedError`, `UnnamedExprNotUsedError`, `DropAfterCallError`, no internal
+    error, no fuel exhaustion. -/
+theorem lin_complete_partial (P : Prog) (hw : P.WF) (hk : P.KindsOK)
+    (hr : ∀ b ∈ P.blocks, b ≠ P.exit → Reachable P b) (hgap : NoGap P) (hg : Good P) :
+    checkCfg P = .ok () := by
+  cases h : checkCfg P with
+  | ok u => cases u; rfl
+  | error e =>
+    have := checkCfg_no_user_err hw hk hr hgap hg h
+    subst this
+    exact absurd h (checkCfg_no_crash hw hk hg hgap)
+
+/-- Completeness for the variable-only fragment (a special case of `lin_complete_partial`). -/
+theorem lin_complete_vars_partial (P : Prog) (hw : P.WF) (hk : P.KindsOK)
+    (_hv : ∀ b, ∀ st ∈ P.stmts b, st.VarsOnly)
+    (hr : ∀ b ∈ P.blocks, b ≠ P.exit → Reachable P b) (hgap : NoGap P) (hg : Good P) :
+    checkCfg P = .ok () :=
+  lin_complete_partial P hw hk hr hgap hg
+
+/-- On a well-kinded CFG the block signatures cover what is read (no separate hypothesis). -/
+theorem kinds_cover_rows (P : Prog) (hw : P.WF) (hk : P.KindsOK) :
+    ∀ b ∈ P.blocks, ∀ l, WillUse P l b → l ∈ P.row b :=
+  fun _ hb _ h => willUse_row hw hk hb h
 
 /-! ## Non-vacuity: a borrowed struct `s` (leaves 0, 1), an owned qubit `q` (2), a bool `c` (3).
     ```
@@ -52,11 +153,12 @@ theorem lin_sound_vars (P : Prog) (hw : P.WF) (_hv : ∀ b, ∀ st ∈ P.stmts b
         return q           # block 6; exit = block 1
     ``` -/
 
-def pl (x : Leaf) : Place := ⟨[x], none, true⟩
-def vr (v : Var) (x : Leaf) : Place := ⟨[x], some v, true⟩
+def pl (x : Leaf) (k : Bool := true) : Place := ⟨[(x, k)], none, true⟩
+def vr (v : Var) (x : Leaf) (k : Bool := true) : Place := ⟨[(x, k)], some v, true⟩
+def stUse (ps : List Place) : Stmt := ⟨ps.map fun p => Act.use p false, [], false⟩
+def stMove (tgts srcs : List Place) : Stmt := ⟨srcs.map fun p => Act.use p false, tgts, false⟩
 
 def exProg : Prog where
-  lin := fun l => l != 3
   borrowedVars := [0]
   borrowedLeaves := [0, 1]
   blocks := [0, 1, 2, 3, 4, 5, 6]
@@ -64,21 +166,23 @@ def exProg : Prog where
   exit := 1
   exitReachable := true
   row := fun b => match b with | 0 => [0, 1, 2, 3] | 1 => [0, 1] | _ => [0, 1, 2, 3, 4]
+  rowLin := fun b => match b with | 0 => [0, 1, 2] | 1 => [0, 1] | _ => [0, 1, 2, 4]
   stmts := fun b => match b with
-    | 0 => [.move [vr 3 4] [pl 0], .move [] [vr 2 3]]
-    | 2 => [.call [] [.owned (vr 3 4)] false, .call [pl 0] [] false]
-    | 3 => [.move [pl 0] [vr 3 4]]
-    | 4 => [.move [] [vr 2 3]]
-    | 5 => [.call [] [.inout (vr 1 2)] false]
-    | 6 => [.ret [vr 1 2]]
+    | 0 => [stMove [vr 3 4] [pl 0], stUse [vr 2 3 false]]
+    | 2 => [stUse [vr 3 4], stMove [pl 0] []]
+    | 3 => [stMove [pl 0] [vr 3 4]]
+    | 4 => [stUse [vr 2 3 false]]
+    | 5 => [⟨[.use (vr 1 2) true, .give (vr 1 2)], [], false⟩]
+    | 6 => [stUse [vr 1 2]]
     | _ => []
   succ := fun b => match b with | 0 => [3, 2] | 2 => [4] | 3 => [4] | 4 => [6, 5] | 5 => [4] | 6 => [1] | _ => []
 
-theorem exProg_wf : exProg.WF := by
-  refine ⟨by decide, by decide, by decide, by decide, rfl, rfl, by decide⟩
+theorem exProg_wfb : exProg.wfb = true := by decide +kernel
+theorem exProg_wf : exProg.WF := wf_of_wfb exProg_wfb
+theorem exProg_kinds : exProg.KindsOK := kindsOK_of_b exProg_wf (by decide +kernel)
 
 example : accepts exProg = true := by decide +kernel
-example : Good exProg := lin_sound exProg exProg_wf (accepts_iff.mp (by decide +kernel))
+example : Good exProg := lin_sound_exec exProg exProg_wfb (by decide +kernel) (by decide +kernel)
 
 /-- forgetting to put the field back is rejected -/
 def exBad : Prog := { exProg with stmts := fun b => if b = 3 then [] else exProg.stmts b }
@@ -94,44 +198,7 @@ example : ¬ Good exBad := by
   have w4 : Walk exBad [0, 3] 4 := Walk.step w3 (by decide)
   have w6 : Walk exBad [0, 3, 4] 6 := Walk.step w4 (by decide)
   have w1 : Walk exBad [0, 3, 4, 6] 1 := Walk.step w6 (by decide)
-  exact (hg.leaves 0 (by decide)).noBadUse _ _ w1 (by decide)
-
-/-! ## Completeness
-
-Full statement (kept for reference; it is **false of the code**, see `lin_complete_false_G1`):
-`P.WF → (every block but the exit is reachable) → Good P → checkCfg P = .ok ()`.
-
-What is proved: outside the two known gaps (`NoGap`: no borrowed linear leaf, or the exit is
-reachable from every block) a good program is never rejected with a user error; the only other
-outcome of the model is `crash` (a place that is in no scope: excluded by the type checker's
-invariants on block signatures, C08).  The liveness worklist provably finishes within the
-model's fuel for every scheduler (`liveRun_flow_isSome`, Lemmas/C06Term*.lean), so the outcome
-`fuel` cannot occur. -/
-
-/-- **Completeness (partial: `NoGap`, and up to the internal outcome `crash`).**
-    If every path from the entry is good and the ownership rules are respected, the checker does
-    not raise `AlreadyUsedError`, `PlaceNotUsedError`, `NotOwnedError`, `BorrowShadowedError`,
-    `BorrowSubPlaceUsedError` or `UnnamedExprNotUsedError`. -/
-theorem lin_complete_partial (P : Prog) (hw : P.WF)
-    (hr : ∀ b ∈ P.blocks, b ≠ P.exit → Reachable P b) (hgap : NoGap P) (hg : Good P) :
-    ∀ e, checkCfg P = .error e → e = .crash :=
-  fun _ h => checkCfg_no_user_err hw hr hgap hg h
-
-/-- Completeness for the variable-only fragment (a special case of `lin_complete_partial`). -/
-theorem lin_complete_vars_partial (P : Prog) (hw : P.WF) (_hv : ∀ b, ∀ st ∈ P.stmts b, st.VarsOnly)
-    (hr : ∀ b ∈ P.blocks, b ≠ P.exit → Reachable P b) (hgap : NoGap P) (hg : Good P) :
-    ∀ e, checkCfg P = .error e → e = .crash :=
-  lin_complete_partial P hw hr hgap hg
-
-/-- **The place-level liveness inside the checker terminates**, for every program, every scope
-    table and every visiting order, within the fuel the model grants (so `checkCfg` never returns
-    `fuel` after pass 1 succeeded). -/
-theorem live_terminates (P : Prog) (sc : Blk → Scope) (init : List Leaf) (sched : List Blk → Blk) :
-    (Dataflow.liveRun (flowCfg P sc) sched (liveFuel (flowCfg P sc) init)
-      (Dataflow.liveInit (flowCfg P sc) init)).isSome = true :=
-  liveRun_flow_isSome P sc init sched
-
-/-! non-vacuity of `lin_complete_partial`: `exProg` meets all hypotheses -/
+  exact (hg.leaves 0).noBadUse _ _ w1 (by decide)
 
 theorem exProg_reach : ∀ b ∈ exProg.blocks, b ≠ exProg.exit → Reachable exProg b := by
   have w0 : Walk exProg [] 0 := Walk.entry
@@ -165,85 +232,43 @@ theorem exProg_noGap : NoGap exProg := by
   simp only [exProg, List.mem_cons, List.not_mem_nil, or_false] at hb
   rcases hb with rfl | rfl | rfl | rfl | rfl | rfl | rfl <;> assumption
 
-example : ∀ e, checkCfg exProg = .error e → e = .crash :=
-  lin_complete_partial exProg exProg_wf exProg_reach exProg_noGap
-    (lin_sound exProg exProg_wf (accepts_iff.mp (by decide +kernel)))
-
-/-- **No internal error**: when the block signatures cover what is read (`RowsOK`: a leaf that
-    some continuation reads before redefining it is in the block's input row — the type checker's
-    variable-level liveness and definedness checks provide this) the checker never fails on a
-    place that is in no scope.  Independent of linearity. -/
-theorem lin_no_crash_partial (P : Prog) (hw : P.WF) (hrows : RowsOK P) (hgap : NoGap P) :
-    checkCfg P ≠ .error .crash :=
-  checkCfg_no_crash hw hrows hgap
-
-/-- **Completeness, with acceptance as conclusion** (partial only in `NoGap`): every path good,
-    ownership rules respected, signatures covering what is read ⇒ the checker accepts. -/
-theorem lin_complete_rows_partial (P : Prog) (hw : P.WF)
-    (hr : ∀ b ∈ P.blocks, b ≠ P.exit → Reachable P b) (hgap : NoGap P) (hrows : RowsOK P) (hg : Good P) :
-    checkCfg P = .ok () := by
-  cases h : checkCfg P with
-  | ok u => cases u; rfl
-  | error e =>
-    have := lin_complete_partial P hw hr hgap hg e h
-    subst this
-    exact absurd h (lin_no_crash_partial P hw hrows hgap)
-
-theorem not_willUse_of_no_evs {P : Prog} {l : Leaf} (h : ∀ b, P.blockEvs l b = []) (b : Blk) : ¬ WillUse P l b := by
-  intro hu
-  induction hu with
-  | here hh => simp [h] at hh
-  | later _ _ _ ih => exact ih
-
-theorem exProg_rows : RowsOK exProg := by
-  intro b hb (x : Nat) hu
-  by_cases hx : x ≤ 4
-  · -- the five leaves of the program: decide block by block
-    have hx' : x = 0 ∨ x = 1 ∨ x = 2 ∨ x = 3 ∨ x = 4 := by omega
-    simp only [exProg, List.mem_cons, List.not_mem_nil, or_false] at hb
-    rcases hb with rfl | rfl | rfl | rfl | rfl | rfl | rfl
-    · rcases hx' with rfl | rfl | rfl | rfl | rfl
-      · decide
-      · decide
-      · decide
-      · decide
-      · exfalso
-        cases hu with
-        | here hh => exact absurd hh (by decide)
-        | later he _ _ => exact absurd he (by decide)
-    · rcases hx' with rfl | rfl | rfl | rfl | rfl
-      · decide
-      · decide
-      all_goals
-        exfalso
-        cases hu with
-        | here hh => exact absurd hh (by decide)
-        | later _ hc _ => simp [exProg] at hc
-    all_goals (rcases hx' with rfl | rfl | rfl | rfl | rfl <;> decide)
-  · exfalso
-    refine not_willUse_of_no_evs (P := exProg) (l := x) ?_ b hu
-    intro c
-    have h0 : x ≠ 0 := by omega
-    have h1 : x ≠ 1 := by omega
-    have h2 : x ≠ 2 := by omega
-    have h3 : x ≠ 3 := by omega
-    have h4 : x ≠ 4 := by omega
-    have hb : x ∉ exProg.borrowedLeaves := by simp [exProg]; omega
-    unfold Prog.blockEvs
-    simp only [hb, and_false, if_false, List.append_nil]
-    match c with
-    | 0 | 2 | 3 | 4 | 5 | 6 =>
-      simp [exProg, Stmt.evs, placesEvs, leafEvs, pl, vr, Arg.place, Arg.isInout, Ne.symm h0, Ne.symm h1, Ne.symm h2,
-        Ne.symm h3, Ne.symm h4]
-    | 1 => rfl
-    | (n + 7) => rfl
-
 example : checkCfg exProg = .ok () :=
-  lin_complete_rows_partial exProg exProg_wf exProg_reach exProg_noGap exProg_rows
-    (lin_sound exProg exProg_wf (accepts_iff.mp (by decide +kernel)))
+  lin_complete_partial exProg exProg_wf exProg_kinds exProg_reach exProg_noGap
+    (lin_sound exProg exProg_wf exProg_kinds (accepts_iff.mp (by decide +kernel)))
 
-/-! ## The full completeness statement is false of the code (gap G1)
+/-! ## Non-vacuity for re-binding (the shape of fix 0c7baf7) and nested calls
 
+    ```
+    def f(q: qubit @owned, c: bool, r: qubit @owned) -> bool:   # q = leaf 0, c = 1, r = 3
+        if c: pass                   # block 0 -> 2 | 3 -> 4
+        b = measure(idq(q))          # block 4: nested call; b = leaf 2
+        q = 1                        #          `q` re-bound at type int
+        use2(r, mk())                #          nested call as second argument
+        return b                     # exit = block 1
+    ``` -/
+
+def rebindProg : Prog where
+  borrowedVars := []
+  borrowedLeaves := []
+  blocks := [0, 1, 2, 3, 4]
+  entry := 0
+  exit := 1
+  exitReachable := true
+  row := fun b => match b with | 0 => [0, 1, 3] | 1 => [] | _ => [0, 3]
+  rowLin := fun b => match b with | 0 => [0, 3] | 1 => [] | _ => [0, 3]
+  stmts := fun b => match b with
+    | 0 => [stUse [vr 1 1 false]]
+    | 4 => [stMove [vr 2 2 false] [vr 0 0], stMove [vr 0 0 false] [], stUse [vr 3 3], stUse [vr 2 2 false]]
+    | _ => []
+  succ := fun b => match b with | 0 => [3, 2] | 2 => [4] | 3 => [4] | 4 => [1] | _ => []
+
+theorem rebindProg_wfb : rebindProg.wfb = true := by decide +kernel
+example : Good rebindProg :=
+  lin_sound_exec rebindProg rebindProg_wfb (by decide +kernel) (by decide +kernel)
+
+/-! ## The full completeness statement is false of the code (gaps G1, G2)
+
+    G1:
     ```
     def f(q: qubit, c: bool) -> None:      # q borrowed (leaf 0), c = leaf 1
         if c:                               # block 0 -> 2 | 3
@@ -252,10 +277,34 @@ example : checkCfg exProg = .ok () :=
     ```
     Every path is good — on the path that never returns the caller's qubit is simply never
     touched — but the checker reports `PlaceNotUsedError`, because the borrowed leaves are made
-    live by default only when the exit is unreachable altogether. -/
+    live by default only when the exit is unreachable altogether.
+
+    G2:
+    ```
+    def f(s: S) -> None:        # s borrowed: leaves 0 (s.a), 1 (s.b)
+        use(s.a)                # block 0 -> 2
+        while True: pass        # block 2 -> 2;  exit = block 1, unreachable
+    ```
+    No path ever hands `s` back, so moving `s.a` out for good breaks nothing; the checker reports
+    `BorrowSubPlaceUsedError` (it wants to thread the borrowed leaves through the loop). -/
+
+/-- a leaf under which nothing is ever held and whose events never change that is good -/
+theorem leafGood_of_inert {P : Prog} {l : Leaf} (h0 : P.initOwned l = false)
+    (h : ∀ b, runEvs false (P.blockEvs l b) = some false) : LeafGood P l := by
+  have htr : ∀ bs, runEvs false (P.trace l bs) = some false := by
+    intro bs
+    induction bs with
+    | nil => rfl
+    | cons b bs ih =>
+      unfold Prog.trace at ih ⊢
+      rw [List.flatMap_cons, runEvs_append, h b]
+      exact ih
+  refine ⟨?_, ?_, ?_⟩
+  · intro bs b _; rw [h0, htr]; simp
+  · intro bs _; rw [h0, htr]
+  · intro bs b _ hrun; rw [h0, htr] at hrun; cases hrun
 
 def gapG1 : Prog where
-  lin := fun l => l == 0
   borrowedVars := [0]
   borrowedLeaves := [0]
   blocks := [0, 1, 2, 3]
@@ -263,11 +312,12 @@ def gapG1 : Prog where
   exit := 1
   exitReachable := true
   row := fun b => match b with | 0 => [0, 1] | _ => [0]
-  stmts := fun b => match b with | 0 => [.move [] [vr 1 1]] | _ => []
+  rowLin := fun _ => [0]
+  stmts := fun b => match b with | 0 => [stUse [vr 1 1 false]] | _ => []
   succ := fun b => match b with | 0 => [3, 2] | 2 => [2] | 3 => [1] | _ => []
 
-theorem gapG1_wf : gapG1.WF := by
-  refine ⟨by decide, by decide, by decide, by decide, rfl, rfl, by decide⟩
+theorem gapG1_wf : gapG1.WF := wf_of_wfb (by decide +kernel)
+theorem gapG1_kinds : gapG1.KindsOK := kindsOK_of_b gapG1_wf (by decide +kernel)
 
 theorem gapG1_walk {bs : List Blk} {b : Blk} (h : Walk gapG1 bs b) :
     (b = 0 ∨ b = 1 ∨ b = 2 ∨ b = 3) ∧ gapG1.trace 0 bs = [] := by
@@ -293,40 +343,52 @@ theorem gapG1_good : Good gapG1 := by
   have u3 : WillUse gapG1 0 3 := .later (c := 1) (by decide) (by decide) u1
   have u0 : WillUse gapG1 0 0 := .later (c := 3) (by decide) (by decide) u3
   refine ⟨?_, ?_⟩
-  · intro l hl
-    have hl0 : l = 0 := by simpa [gapG1] using hl
-    subst hl0
-    refine ⟨?_, ?_, ?_⟩
-    · intro bs b hwk
-      obtain ⟨hb, ht⟩ := gapG1_walk hwk
-      rw [trace_snoc, ht]
-      rcases hb with rfl | rfl | rfl | rfl <;> decide
-    · intro bs hwk
-      obtain ⟨_, ht⟩ := gapG1_walk hwk
-      rw [trace_snoc, ht]
-      decide
-    · intro bs b hwk _
-      obtain ⟨hb, _⟩ := gapG1_walk hwk
-      rcases hb with rfl | rfl | rfl | rfl
-      · exact Or.inl u0
-      · exact Or.inl u1
-      · exact Or.inr ⟨by decide, fun _ => 2, rfl, fun _ => ⟨show gapG1.blockEvs 0 2 = [] by decide,
-          show 2 ∈ gapG1.succ 2 by decide⟩⟩
-      · exact Or.inl u3
+  · intro l
+    by_cases hl0 : l = 0
+    · subst hl0
+      refine ⟨?_, ?_, ?_⟩
+      · intro bs b hwk
+        obtain ⟨hb, ht⟩ := gapG1_walk hwk
+        rw [trace_snoc, ht]
+        rcases hb with rfl | rfl | rfl | rfl <;> decide
+      · intro bs hwk
+        obtain ⟨_, ht⟩ := gapG1_walk hwk
+        rw [trace_snoc, ht]
+        decide
+      · intro bs b hwk _
+        obtain ⟨hb, _⟩ := gapG1_walk hwk
+        rcases hb with rfl | rfl | rfl | rfl
+        · exact Or.inl u0
+        · exact Or.inl u1
+        · exact Or.inr ⟨by decide, fun _ => 2, rfl, fun _ => ⟨show gapG1.blockEvs 0 2 = [] by decide,
+            show 2 ∈ gapG1.succ 2 by decide⟩⟩
+        · exact Or.inl u3
+    · refine leafGood_of_inert ?_ ?_
+      · simp [Prog.initOwned, gapG1]; exact hl0
+      · intro b
+        have hnb : l ∉ gapG1.borrowedLeaves := by simp [gapG1]; exact hl0
+        unfold Prog.blockEvs
+        simp only [hnb, and_false, if_false, List.append_nil]
+        cases b with
+        | zero =>
+          by_cases h1 : 1 = l
+          · subst h1; decide
+          · simp [gapG1, stUse, Stmt.evs, Act.evs, leafEvs, vr, h1, runEvs]
+        | succ n => rfl
   · rintro b ⟨bs, hwk⟩ st hst
     obtain ⟨hb, _⟩ := gapG1_walk hwk
     rcases hb with rfl | rfl | rfl | rfl
-    · have : st = .move [] [vr 1 1] := by simpa [gapG1] using hst
+    · have : st = stUse [vr 1 1 false] := by simpa [gapG1] using hst
       subst this
-      simp [Stmt.StaticOK, isInoutVar, vr, gapG1]
+      simp [Stmt.StaticOK, Act.StaticOK, stUse, isInoutVar, vr, gapG1]
     all_goals simp [gapG1] at hst
 
 /-- **The unrestricted completeness statement fails** (known gap G1; the witness is replayed on
     the real checker by the harness: corpus `gap-G1-borrowed-qubit-dead-end-loop`). -/
 theorem lin_complete_false_G1 :
-    ∃ P : Prog, P.WF ∧ (∀ b ∈ P.blocks, b ≠ P.exit → Reachable P b) ∧ Good P ∧
+    ∃ P : Prog, P.WF ∧ P.KindsOK ∧ (∀ b ∈ P.blocks, b ≠ P.exit → Reachable P b) ∧ Good P ∧
       checkCfg P = .error .placeNotUsed := by
-  refine ⟨gapG1, gapG1_wf, ?_, gapG1_good, ?_⟩
+  refine ⟨gapG1, gapG1_wf, gapG1_kinds, ?_, gapG1_good, ?_⟩
   · have w0 : Walk gapG1 [] 0 := Walk.entry
     have w3 : Walk gapG1 [0] 3 := Walk.step w0 (by decide)
     have w2 : Walk gapG1 [0] 2 := Walk.step w0 (by decide)
@@ -343,18 +405,7 @@ theorem lin_complete_false_G1 :
     | error e => rw [h] at this; simp at this; rw [this]
     | ok u => rw [h] at this; simp at this
 
-/-! ## Gap G2: a function that never returns
-
-    ```
-    def f(s: S) -> None:        # s borrowed: leaves 0 (s.a), 1 (s.b)
-        use(s.a)                # block 0 -> 2
-        while True: pass        # block 2 -> 2;  exit = block 1, unreachable
-    ```
-    No path ever hands `s` back, so moving `s.a` out for good breaks nothing; the checker reports
-    `BorrowSubPlaceUsedError` (it wants to thread the borrowed leaves through the loop). -/
-
 def gapG2 : Prog where
-  lin := fun _ => true
   borrowedVars := [0]
   borrowedLeaves := [0, 1]
   blocks := [0, 1, 2]
@@ -362,14 +413,15 @@ def gapG2 : Prog where
   exit := 1
   exitReachable := false
   row := fun _ => [0, 1]
-  stmts := fun b => match b with | 0 => [.call [] [.owned (pl 0)] false] | _ => []
+  rowLin := fun _ => [0, 1]
+  stmts := fun b => match b with | 0 => [stUse [pl 0]] | _ => []
   succ := fun b => match b with | 0 => [2] | 2 => [2] | _ => []
 
-theorem gapG2_wf : gapG2.WF := by
-  refine ⟨by decide, by decide, by decide, by decide, rfl, rfl, by decide⟩
+theorem gapG2_wf : gapG2.WF := wf_of_wfb (by decide +kernel)
+theorem gapG2_kinds : gapG2.KindsOK := kindsOK_of_b gapG2_wf (by decide +kernel)
 
 theorem gapG2_walk {bs : List Blk} {b : Blk} (h : Walk gapG2 bs b) :
-    (bs = [] ∧ b = 0) ∨ (b = 2 ∧ gapG2.trace 0 bs = [Ev.use] ∧ gapG2.trace 1 bs = []) := by
+    (bs = [] ∧ b = 0) ∨ (b = 2 ∧ gapG2.trace 0 bs = [⟨Op.use, true⟩] ∧ gapG2.trace 1 bs = []) := by
   induction h with
   | entry => exact Or.inl ⟨rfl, rfl⟩
   | @step bs b c _ hcb ih =>
@@ -385,13 +437,8 @@ theorem gapG2_walk {bs : List Blk} {b : Blk} (h : Walk gapG2 bs b) :
       · rw [trace_snoc, h1]; decide
 
 theorem gapG2_good : Good gapG2 := by
-  have idle2 : ∀ l, (l = 0 ∨ l = 1) → MayIdle gapG2 l 2 := by
-    intro l hl
-    refine ⟨fun _ => 2, rfl, fun _ => ⟨?_, show 2 ∈ gapG2.succ 2 by decide⟩⟩
-    show gapG2.blockEvs l 2 = []
-    rcases hl with rfl | rfl <;> decide
   refine ⟨?_, ?_⟩
-  · intro l _
+  · intro l
     by_cases hl0 : l = 0
     · subst hl0
       refine ⟨?_, ?_, ?_⟩
@@ -423,52 +470,32 @@ theorem gapG2_good : Good gapG2 := by
             cases i with
             | zero => exact ⟨by decide, by decide⟩
             | succ i => exact ⟨show gapG2.blockEvs 1 2 = [] by decide, show 2 ∈ gapG2.succ 2 by decide⟩
-          · exact idle2 1 (Or.inr rfl)
-      · -- leaves that occur nowhere: never owned, never touched
-        have hev : ∀ b, gapG2.blockEvs l b = [] := by
-          intro b
-          have hne : ∀ x, x ∈ [0, 1] → ¬ x = l := by
-            intro x hx e
-            simp at hx
-            rcases hx with rfl | rfl
-            · exact hl0 e.symm
-            · exact hl1 e.symm
-          have hnb : l ∉ gapG2.borrowedLeaves := by
-            simp [gapG2]; exact ⟨hl0, hl1⟩
+          · exact ⟨fun _ => 2, rfl, fun _ => ⟨show gapG2.blockEvs 1 2 = [] by decide,
+              show 2 ∈ gapG2.succ 2 by decide⟩⟩
+      · refine leafGood_of_inert ?_ ?_
+        · simp [Prog.initOwned, gapG2]; exact ⟨hl0, hl1⟩
+        · intro b
+          have hnb : l ∉ gapG2.borrowedLeaves := by simp [gapG2]; exact ⟨hl0, hl1⟩
           unfold Prog.blockEvs
           simp only [hnb, and_false, if_false, List.append_nil]
-          by_cases hb : b = 0
-          · subst hb
-            simp [gapG2, Stmt.evs, placesEvs, leafEvs, pl, Arg.place, Arg.isInout]
-            exact fun e => hl0 e.symm
-          · have : gapG2.stmts b = [] := by
-              cases b with
-              | zero => exact absurd rfl hb
-              | succ n => rfl
-            rw [this]; rfl
-        have htr : ∀ bs, gapG2.trace l bs = [] := by
-          intro bs
-          unfold Prog.trace
-          simp [hev]
-        have hinit : gapG2.initOwned l = false := by
-          simp [Prog.initOwned, gapG2]; exact ⟨hl0, hl1⟩
-        refine ⟨?_, ?_, ?_⟩
-        · intro bs b _; rw [htr]; simp [runEvs]
-        · intro bs _; rw [htr, hinit]; rfl
-        · intro bs b _ hrun; rw [htr, hinit] at hrun; simp [runEvs] at hrun
+          cases b with
+          | zero =>
+            have : ¬ 0 = l := fun e => hl0 e.symm
+            simp [gapG2, stUse, Stmt.evs, Act.evs, leafEvs, pl, this, runEvs]
+          | succ n => rfl
   · rintro b ⟨bs, hwk⟩ st hst
     rcases gapG2_walk hwk with ⟨_, rfl⟩ | ⟨rfl, _, _⟩
-    · have : st = .call [] [.owned (pl 0)] false := by simpa [gapG2] using hst
+    · have : st = stUse [pl 0] := by simpa [gapG2] using hst
       subst this
-      simp [Stmt.StaticOK, isInoutVar, pl, Arg.place]
+      simp [Stmt.StaticOK, Act.StaticOK, stUse, isInoutVar, pl]
     · simp [gapG2] at hst
 
 /-- **The unrestricted completeness statement fails also for functions that never return**
     (known gap G2; corpus `gap-G2-borrowed-field-moved-out-never-returns`). -/
 theorem lin_complete_false_G2 :
-    ∃ P : Prog, P.WF ∧ (∀ b ∈ P.blocks, b ≠ P.exit → Reachable P b) ∧ Good P ∧
+    ∃ P : Prog, P.WF ∧ P.KindsOK ∧ (∀ b ∈ P.blocks, b ≠ P.exit → Reachable P b) ∧ Good P ∧
       checkCfg P = .error (.usedThenLive true) := by
-  refine ⟨gapG2, gapG2_wf, ?_, gapG2_good, ?_⟩
+  refine ⟨gapG2, gapG2_wf, gapG2_kinds, ?_, gapG2_good, ?_⟩
   · have w0 : Walk gapG2 [] 0 := Walk.entry
     have w2 : Walk gapG2 [0] 2 := Walk.step w0 (by decide)
     intro b hb hne
